@@ -169,7 +169,7 @@ def discharge(queries, budget_s=10.0, procs=None, want_model=True, portfolio=Tru
     return out
 
 
-def quick_unsat(hyps, timeout_ms=800):
+def quick_unsat(hyps, timeout_ms=250):
     """path pruning: True only when the path condition is definitely unsat"""
     s = z3.Solver()
     s.set('timeout', timeout_ms)
